@@ -955,6 +955,20 @@ pub fn create_guard() -> String {
         out += &format!("[create_guard code={} nonce={} storage={} result={:?} depth={}->{} target_balance={} caller_balance={}{}] ", code, nonce, storage,
             r.as_ref().map(|_| "checkpoint").map_err(|e| format!("{e:?}")), depth0, js.depth(), t.info.balance, c.info.balance, if ok { "" } else { " MISMATCH" });
     }
+    // the endowment overflows the target's balance: the creation fails with OverflowPayment and nothing stays changed
+    {
+        let mut db = CacheDB::new(EmptyDB::default());
+        db.insert_account_info(CALLER, AccountInfo { nonce: 0, balance: U256::from(100), code_hash: revm::primitives::KECCAK_EMPTY, code: None });
+        db.insert_account_info(target, AccountInfo { nonce: 0, balance: U256::MAX - U256::from(5), code_hash: revm::primitives::KECCAK_EMPTY, code: None });
+        let mut js = JournaledState::new(SpecId::CANCUN, HashSet::default());
+        let _ = js.load_account(CALLER, &mut db);
+        let _ = js.load_account(target, &mut db);
+        let depth0 = js.depth();
+        let r = js.create_account_checkpoint(CALLER, target, false, U256::from(10), SpecId::CANCUN);
+        let (c, t) = (js.state.get(&CALLER).unwrap().info.balance, js.state.get(&target).unwrap());
+        let ok = r == Err(InstructionResult::OverflowPayment) && c == U256::from(100) && t.info.balance == U256::MAX - U256::from(5) && !t.is_created() && js.depth() == depth0;
+        out += &format!("[create_guard endowment overflow result={:?} caller_balance={} depth={}->{}{}] ", r.as_ref().map(|_| "checkpoint").map_err(|e| format!("{e:?}")), c, depth0, js.depth(), if ok { "" } else { " MISMATCH" });
+    }
     out
 }
 
